@@ -1,6 +1,7 @@
 package main
 
 import (
+	"encoding/hex"
 	"bytes"
 	"fmt"
 	"io"
@@ -92,6 +93,30 @@ func runC04(res *lp.Result) {
 		default:
 			res.Add(lp.Finding{Kind: "violation", What: entry + " does not terminate within 10 s on a small input", Input: entry + " " + input})
 			return "timeout"
+		}
+	}
+	// inputs that once made a decoder misbehave (kept as a corpus that runs first)
+	for _, c := range []struct{ codec, hexIn string }{
+		// snappy block header declaring ~3 GB in a 16-byte body: snappy.Decode allocated it (repaired in /repo a284476)
+		{"snappy", "c25f779a0200000010abfdfdb80d500c7ae7391f8d596a2002"},
+		{"snappy", "8401000108000000" + "0a" + "ffffffff0f0102030405"},
+		{"snappy", "8301000208000000" + "06" + "feffffff0f00"},
+	} {
+		m, _ := hex.DecodeString(c.hexIn)
+		for _, cs := range compSettings() {
+			if cs.name != c.codec {
+				continue
+			}
+			currentInput.Store("frame dec " + cs.name + " " + c.hexIn)
+			o := guarded(func() (string, int, error) {
+				r := bytes.NewReader(m)
+				d, err := cs.codec.DecodeFrame(r)
+				if err != nil {
+					return "", 0, err
+				}
+				return show.Frame(d), r.Len(), nil
+			})
+			record("DecodeFrame/"+cs.name, c.hexIn, o, "ok")
 		}
 	}
 	// frames through all codecs
